@@ -386,6 +386,13 @@ fn gate_strategy() -> impl Strategy<Value = GateCase> {
                 c.name = if i == 0 && upd_col % 2 == 1 { "p.c1".to_string() } else { format!("c{i}") };
                 cols.push(c);
             }
+            // one schema in three has a second key column at the end, behind
+            // the non-key columns (key columns need not come first)
+            if cols.len() >= 3 && upd_col % 3 == 2 {
+                let last = cols.len() - 1;
+                cols[last].key = true;
+                cols[last].nullable = false;
+            }
             let cats: Vec<BoxedStrategy<String>> = cols
                 .iter()
                 .map(|c| match c.category {
@@ -405,6 +412,11 @@ fn gate_strategy() -> impl Strategy<Value = GateCase> {
                 for j in 0..arity_delta {
                     cand.push(V::Int(j));
                 }
+            }
+            // with a late key column, half of the candidates repeat the
+            // leading key value, so that only the late column tells the rows apart
+            if n >= 3 && cols[n - 1].key && cand.len() == n && seeds[6].0 % 2 == 0 {
+                cand[0] = good[0].clone();
             }
             let upd_val = value_for(&cols[upd_col % n], seeds[7].0, seeds[7].1, &seeds[7].2, &cat_b[upd_col % n]);
             GateCase { cols, good, cand, upd_col, upd_val }
